@@ -293,7 +293,8 @@ class Origin:
     """Scriptable origin. handler(req) -> list of actions; default 200 with a small body.
 
     req = dict(sid, n (arrival index for this sid), first, hdrs, body, body_complete, conn)
-    actions: ("send", bytes) ("sleep", seconds) ("close",) ("reset",) ("wait_event", name) ("set_event", name) ("keep",)
+    actions: ("send", bytes) ("sleep", seconds) ("close",) ("reset",) ("halfclose",) ("wait_event", name) ("set_event", name)
+    The connection stays open for further requests unless an action closes it.
     """
 
     def __init__(self):
@@ -356,7 +357,7 @@ class Origin:
                     lst.append(req)
                 h = self.handlers.get(sid)
                 actions = h(req) if h else [("send", simple_response(200, b"default"))]
-                keep = False
+                keep = True   # persistent by default; ("close",) / ("reset",) / ("nokeep",) end the connection
                 for a in actions:
                     if a[0] == "send":
                         c.sendall(a[1])
@@ -377,6 +378,8 @@ class Origin:
                         self.event(a[1]).set()
                     elif a[0] == "keep":
                         keep = True
+                    elif a[0] == "nokeep":
+                        keep = False
                 if not keep:
                     break
         except OSError:
